@@ -161,4 +161,18 @@ CLAIMS = {
              "inside queue events are only decided as far as these ordering rules go.",
         technique="regular event-trace abstraction + language inclusion (product construction); CFG dominance/guards; who-may-write",
         ref="4/C06"),
+    "C09": dict(
+        text="Narrow static claim on the light path: the stack is mutated only by Light, every insertion is followed by the "
+             "descending sort and entries order by (priority, key); in _schedule_update every channel iteration assigns both "
+             "brightnesses (from their own colour, /255, after gamma+colour correction) before set_fade(start, start_time, "
+             "target, target_time) on every driver, then light_sync on every platform; every mutator refreshes the "
+             "hardware under a visibility flag computed from the stack before the change, and the scans that decide "
+             "whether something opaque lies *above* a key stop at the key; fade arithmetic is in consistent units and a "
+             "fade-out entry is removed after exactly fade_ms; every concrete light driver implements what its base "
+             "requires, software fade steps are clamped and end on the target; a running software fade is cancelled "
+             "before a newer command takes effect; the batch system records every value it sends and skips only "
+             "finished fades equal to the recorded state. Correctness of the suppression shortcuts over histories, "
+             "interpolated values and batching are not decided.",
+        technique="who-may-write; CFG must-pass / definite assignment; guard analysis; unit inference; sibling interface completeness",
+        ref="4/C09"),
 }
